@@ -36,6 +36,8 @@ RULE = ("corpus of defect witnesses; all trees of a small grammar up to size N (
         "collections. Non-trivial = the implementation's output differs from its input; distinct by ast.dump")
 
 CORPUS = [
+    # F29: starred arguments of called lambdas are left as calls
+    "(lambda a, b: a - b)(*(5, 2))", "Select(ds, lambda e: (lambda a, b: a - b)(e.a, *(e.b,)))", "(lambda a: Select(ds, lambda e: e.a + a))(*(3,))",
     # a definition used twice, one use re-visited by a fusion rule: the implementation's in-place edit shows in the other use
     # too (correspondence kind "resimplified"; minimised from a thorough-tier disagreement)
     "(lambda e: Select(Where(e, lambda t: t > 0), lambda t: len(e)))(Select(Select(ds, lambda e: First(ds)), lambda t: Count(Select(t.trk, lambda j: j.met))))",
